@@ -4,6 +4,16 @@ import json, os, sys
 ROOT = os.path.dirname(os.path.dirname(os.path.abspath(__file__)))
 
 CHECKS = {
+ "C08": ("exploration",
+         "property-based testing: identity laws of the ingress id; arrival-order/retry metamorphic relation over rounds of submissions with exhaustive permutations for small rounds; reference inbox model; history invariants (at-most-once, conservation) over generated scripts",
+         "Ingress ids depend only on (kind, bytes, parent set); for fixed per-round sets of intents every arrival order and retry pattern yields identical dispositions, StepRecords, pending counts, state fingerprints and provenance; a reference inbox predicts committed heads, batch sizes and which intents run; across histories no (head, intent) commits twice and accepted = pending + admitted at every step.",
+         "Runtime driven through its public API; intents carry data-driven programs guarded by structural preconditions (an intent may run against a later state than it was written for).",
+         "DESIGN.md §4 C08"),
+ "C09": ("fault_enumeration",
+         "fault injection by generated program (six failure kinds) at a generated position among runnable heads, with a before/after fingerprint oracle over every field of the runtime and provenance renderings, plus ordering invariants of successful passes",
+         "A failing head at any position makes the whole pass fail, leaves every runtime/provenance field except the documented fault evidence byte-identical, records exactly one fault with the documented scope, quarantines exactly what the scope says until trusted recovery, and later honest passes commit runnable heads in canonical order with +1 tick per head and +1 global tick; history remains replayable.",
+         "Field-wise comparison uses the derived Debug renderings of WorldlineRuntime and ProvenanceService; tick overflow not injected.",
+         "DESIGN.md §4 C09"),
  "C05": ("fault_enumeration",
          "systematic mutation of generated histories: a 40-field alteration catalogue applied at every tick (exhaustive for short histories) through a ProvenanceStore wrapper and through rebuilt services, plus structural edits and checkpoint alterations; oracle = typed error or identical verified result",
          "Generated multi-head histories are first verified untampered (commit-id binding, parent = previous tip, gap-free, every BTR segment, append refusal of gaps/duplicates/unknown parents); then every single-field alteration and structural edit must be rejected with a typed error or produce exactly the original verified result (per-tick hash triple + parents, final root, store content). Unbound metadata fields are tallied, not flagged.",
